@@ -6,6 +6,7 @@ import (
 	"log"
 	"net"
 	"net/http"
+	"sync"
 	"time"
 
 	"github.com/buildbuildio/pebbles/planner"
@@ -32,6 +33,28 @@ func (sd subscriptionDict) CleanAll() {
 	}
 }
 
+// syncConn serialises whole frames written to one client connection: the handler,
+// the heartbeat and every subscription listener write to it concurrently, and a frame
+// is written as header and payload separately
+type syncConn struct {
+	net.Conn
+	mu sync.Mutex
+}
+
+func (c *syncConn) writeServerText(b []byte) error {
+	c.mu.Lock()
+	defer c.mu.Unlock()
+	return wsutil.WriteServerText(c.Conn, b)
+}
+
+// writeServerText writes one text frame, atomically when conn is a *syncConn
+func writeServerText(conn net.Conn, b []byte) error {
+	if sc, ok := conn.(*syncConn); ok {
+		return sc.writeServerText(b)
+	}
+	return wsutil.WriteServerText(conn, b)
+}
+
 func sendHeartbeat(ctx context.Context, conn net.Conn) error {
 	timeTicker := time.NewTicker(time.Second * 4)
 	defer timeTicker.Stop()
@@ -44,7 +67,7 @@ func sendHeartbeat(ctx context.Context, conn net.Conn) error {
 		select {
 		case <-timeTicker.C:
 			verifhook.At("sub.heartbeat.tick", conn)
-			if err := wsutil.WriteServerText(conn, bMsg); err != nil {
+			if err := writeServerText(conn, bMsg); err != nil {
 				return err
 			}
 		case <-ctx.Done():
@@ -63,10 +86,11 @@ func (g *Gateway) subscriptionHandler(w http.ResponseWriter, r *http.Request) {
 		},
 	}
 
-	conn, _, _, err := upgrader.Upgrade(r, w)
+	rawConn, _, _, err := upgrader.Upgrade(r, w)
 	if err != nil {
 		return
 	}
+	conn := &syncConn{Conn: rawConn}
 
 	subDict := make(subscriptionDict)
 
@@ -77,10 +101,13 @@ func (g *Gateway) subscriptionHandler(w http.ResponseWriter, r *http.Request) {
 		// gracefully close connection
 		body := ws.NewCloseFrameBody(ws.StatusNormalClosure, "")
 		frame := ws.NewCloseFrame(body)
-		if err := ws.WriteHeader(conn, frame.Header); err != nil {
-			return
+		conn.mu.Lock()
+		werr := ws.WriteHeader(conn.Conn, frame.Header)
+		if werr == nil {
+			_, werr = conn.Conn.Write(body)
 		}
-		if _, err := conn.Write(body); err != nil {
+		conn.mu.Unlock()
+		if werr != nil {
 			return
 		}
 
@@ -115,7 +142,7 @@ func (g *Gateway) subscriptionHandler(w http.ResponseWriter, r *http.Request) {
 			if err != nil {
 				return
 			}
-			if err := wsutil.WriteServerText(conn, bresp); err != nil {
+			if err := writeServerText(conn, bresp); err != nil {
 				return
 			}
 			// start sending heartbeat
